@@ -12,6 +12,8 @@ static inline GenOpts profile_opts(int profile) {
             o.distinct_keys = true; o.pointer_keys = true; o.plain_numbers = true; o.valid_utf8 = true; o.max_depth = 4; o.max_kids = 5; o.scalar_bias = 45; break;
         case 4:  // Utils merge: like 3 but without null members (for 'to' documents)
             o.distinct_keys = true; o.pointer_keys = true; o.plain_numbers = true; o.valid_utf8 = true; o.allow_null = false; o.max_depth = 4; o.max_kids = 5; break;
+        case 6:  // Utils: case-variant keys, nested objects likely, no null members
+            o.distinct_keys = true; o.case_keys = true; o.plain_numbers = true; o.valid_utf8 = true; o.ascii_strings = true; o.allow_null = false; o.max_depth = 3; o.max_kids = 4; o.scalar_bias = 35; break;
         case 5:  // small values
             o.max_depth = 2; o.max_kids = 3; break;
         default:  // generic histories
